@@ -398,3 +398,18 @@ Proof.
   - inv. cbn. split; [eexists; reflexivity|]. repeat split; try reflexivity. intros h Hh. discriminate Hh.
   - inv. cbn. split; [eexists; reflexivity|]. repeat split; try reflexivity. intros h Hh. discriminate Hh.
 Qed.
+
+(* ---- range guard of the DSA verification generated from Python_DSAKey.verify ------------------ *)
+From TV Require Import Gen.C05_DsaVerify.
+From Coq Require Import Lia.
+Lemma dsa_tail_accept_in_range (invMod : Z -> Z -> Z) (powMod : Z -> Z -> Z -> Z) p q g y d r s :
+  dsa_verify_tail invMod powMod p q g y d r s = true ->
+  0 < r < q /\ 0 < s < q /\
+  r = (((powMod g ((d * invMod s q) mod q) p) * (powMod y ((r * invMod s q) mod q) p)) mod p) mod q.
+Proof.
+  unfold dsa_verify_tail. intros H.
+  match type of H with (if ?c then _ else _) = true => destruct c eqn:E; [|discriminate H] end.
+  repeat (rewrite andb_true_iff in E). rewrite !Z.ltb_lt in E.
+  cbv zeta in H. apply Z.eqb_eq in H.
+  split; [lia|]. split; [lia|]. exact H.
+Qed.
